@@ -176,6 +176,7 @@ package support
 //@ func support.TBE$2
 //@   flag worker
 //@   flag noframe
+//@   flag countcalls
 //@   requires edgechan != nil && bootedgeindex != nil && reftree != nil && boot.Tree != nil
 //@   recv edgechan [message_is_a_reference_branch] msg != nil
 //@   ensures [done_on_every_path] ghost(wg_done) == old(ghost(wg_done)) + 1
@@ -185,6 +186,7 @@ package support
 //@   loop 1
 //@     complete [all_iterations_no_early_exit]
 //@     invariant [locks_balanced] ghost(lock_Lock) - ghost(lock_Unlock) == lold(ghost(lock_Lock) - ghost(lock_Unlock))
+//@     step [every_inner_reference_branch_has_its_support_incremented_exactly_once_per_bootstrap_tree_found_there_or_not] ghost(ncalls_IncrementSupport) == atHead(ghost(ncalls_IncrementSupport)) + (p > 1 ? 1 : 0)
 
 // feeder of TBE: sends every reference branch once, then closes the channel
 //@ func support.TBE$1
